@@ -154,7 +154,7 @@ def compute_cholesky_for_gp_sampling(covariance_matrix):
     """
   # pylint: disable=unexpected-keyword-arg
   try:
-    chol_cov = scipy.linalg.cholesky(covariance_matrix, lower=True, overwrite_a=True, check_finite=False)
+    chol_cov = scipy.linalg.cholesky(covariance_matrix, lower=True, overwrite_a=False, check_finite=False)
   except scipy.linalg.LinAlgError:
     U, E, _ = scipy.linalg.svd(covariance_matrix, overwrite_a=True, check_finite=False)
     chol_cov = U * numpy.sqrt(E)[None, :]
